@@ -177,7 +177,8 @@ def bounds(prog, rep):
                 if hb:
                     if bt is None:
                         probs.append("declared bounds are NOT passed to curve_fit: the fit is unconstrained")
-                    elif conv not in alts(bt) or any(a not in (conv, P("bounds")) for a in alts(bt)):
+                    elif not ({conv, _repacked(conv, "list"), _repacked(conv, "tuple")} & set(alts(bt))) \
+                            or any(a not in (conv, P("bounds"), _repacked(conv, "list"), _repacked(conv, "tuple")) for a in alts(bt)):
                         probs.append(f"bounds= must be convert_bounds_for_curve_fit(bounds), found {show(bt)[:80]}")
                 elif bt is not None:
                     probs.append("bounds= passed although bounds is None")
@@ -353,6 +354,11 @@ def _all_fitted(l):
     if l[0] == "call" and l[1] == G("all"):
         return any(w[0] == "cmp" and w[1] == "in" and w[3] == FC for w in walk(l)) and mentions(l, DP)
     return False
+
+
+def _repacked(conv, kind):
+    """the converted pair taken apart and put together again: [conv[0], conv[1]]"""
+    return (kind, (("sub", conv, ("const", 0)), ("sub", conv, ("const", 1))))
 
 
 def protocol(prog, rep):
